@@ -126,6 +126,19 @@ def correspond(ctx, scale):
     goals_by_shard = {}
     meta = {}
     gid = 0
+    # PROCESS-GLOBAL state: before anything else, throw-away modules with the same level counts use the public helpers with NON-default arguments
+    # (bound(z, eps=0.25) to plot the curve with a wider margin ...) - what another instance did earlier in the process changes nothing here
+    for sym in (False, True):
+        for L in Ls:
+            try:
+                tq = FSQ([L], preserve_symmetry=sym)
+                with torch.no_grad():
+                    tq.bound(torch.linspace(-3, 3, 7).reshape(1, 7, 1), eps=0.25)
+                    if hasattr(tq, 'symmetry_preserving_bound'):
+                        tq.symmetry_preserving_bound(torch.linspace(-3, 3, 7).reshape(1, 7, 1))
+                dist['throwaway_helper_calls'] = dist.get('throwaway_helper_calls', 0) + 1
+            except Exception:
+                pass
     for sym in (False, True):
         for L in Ls:
             q = FSQ([L], preserve_symmetry=sym)
